@@ -6,7 +6,7 @@ from hypothesis import strategies as st
 from hypothesis.stateful import RuleBasedStateMachine, initialize, rule
 
 from ..oracle import Raised, check, eq, lib
-from ..ref import pebuild, xorenc
+from ..ref import detect, pebuild, xorenc
 from ..runner import Sub, Violation
 
 PROPERTY = "C09"
@@ -180,26 +180,7 @@ def stream_execute(case, stats):
 # ------------------------------------------------------------------------------------------ detection
 def ref_validating(raw: bytes):
     """(must, may): candidate nonce offsets that validate under the reference analysis."""
-    n = len(raw)
-    size_c = xorenc.size_candidates(raw)
-    must_m, may_m = [], []
-    p = raw.find(b"\xff\xff\xff")
-    while p != -1 and p <= 1024 + 8192:
-        if p + 3 <= 1024:
-            must_m.append(p + 3)
-        elif p <= 1024 + 3:
-            may_m.append(p + 3)
-        p = raw.find(b"\xff\xff\xff", p + 1)
-
-    def validates(c):
-        if c + 8 > n:
-            return False
-        view = xorenc.decode_body(raw[c + 8 : c + 8 + 2200], raw[c : c + 4])
-        return pebuild.scan_mz(view) is not None
-
-    must = [c for c in dict.fromkeys(size_c + must_m) if validates(c)]
-    may = [c for c in dict.fromkeys(may_m) if validates(c)]
-    return must, may
+    return detect.validating(raw)
 
 
 def ff_free(b: bytes) -> bytes:
